@@ -13,6 +13,7 @@ import (
 	"verif/fsmodel"
 	"verif/par"
 	"verif/scratch"
+	"verif/xfer"
 )
 
 func init() {
@@ -31,6 +32,11 @@ func judgeC01(c SyncCase) (string, string, *SyncObs) {
 	}
 	if err := d.resetDst(c.Dst); err != nil {
 		return "infra", "materialize dst: " + err.Error(), nil
+	}
+	if c.AbortFirst != nil {
+		if ab := d.transferFault(c, c.Src, *c.AbortFirst); ab.Err != "" {
+			return "infra", ab.Err, nil
+		}
 	}
 	o := d.transfer(c, c.Src)
 	if o.Err != "" {
@@ -202,6 +208,30 @@ func c01Cases(tier string) []SyncCase {
 		for _, ls := range parts {
 			for _, mem := range []bool{false, true} {
 				cases = append(cases, SyncCase{Src: mkK(ls), Dst: nil, Mem: mem}, SyncCase{Src: mkK(ls), Dst: mkK(ls), Mem: mem}, SyncCase{Src: mkK(ls), Dst: mkK(parts[0]), Mem: mem})
+			}
+		}
+	}
+	// leftovers of an aborted run: every stream call of a transfer with multi-chunk files fails in turn, then the same
+	// transfer runs fault-free over what is there
+	{
+		T := fsmodel.T0
+		f := func(p string, seed, size int, mt int64) fsmodel.Node {
+			return fsmodel.Node{Path: p, Kind: fsmodel.File, Perm: 0644, Mtime: T + mt, Data: fsmodel.Content(seed, size)}
+		}
+		src := fsmodel.Tree{f("big", 1, 98304, 1), {Path: "d", Kind: fsmodel.Dir, Perm: 0755, Mtime: T + 2}, f("d/x", 2, 70000, 3), f("s", 3, 9, 4),
+			{Path: "d/h", Kind: fsmodel.File, Perm: 0644, Mtime: T + 1, Data: fsmodel.Content(1, 98304), HL: 1}}
+		src[0].HL = 1
+		src.Sort()
+		dirty := fsmodel.Tree{f("big", 9, 120000, 7), f("gone", 4, 3, 5), f("s", 3, 9, 4)}
+		for _, dst := range []fsmodel.Tree{nil, dirty} {
+			for _, end := range []string{"R.recv", "S.send", "R.send"} {
+				n := 22
+				if end == "R.send" {
+					n = 6
+				}
+				for k := 0; k < n; k++ {
+					cases = append(cases, SyncCase{Src: src, Dst: dst, Mem: true, AbortFirst: &xfer.Fault{End: end, K: k}})
+				}
 			}
 		}
 	}
